@@ -417,14 +417,16 @@ def gen(seed, tier):
         cases.append(d)
         stats["download_api"] = stats.get("download_api", 0) + 1
     if tier != "quick":
+        # every op list of length <= 4 over the full alphabet, of length 5 over the announce-only part of it
+        core = [o for o in EX_ALPHA if o not in ("sr:0", "dok:b:600:300:0", "dr")]
         for n in range(1, 6):
-            for tup in itertools.product(EX_ALPHA, repeat=n):
+            for tup in itertools.product(EX_ALPHA if n <= 4 else core, repeat=n):
                 ops = []
                 for o in tup:
                     ops += ["sp", "di"] if o == "SPDI" else [o]
                 cases.append(line([0, 1], ops, 0, [True, False]))
                 stats["exhaustive"] += 1
-        stats["exhaustive_scope"] = "all op lists of length <= 5 over %r, 2 trackers in 2 tiers" % (EX_ALPHA,)
+        stats["exhaustive_scope"] = "all op lists of length <= 4 over %r and of length 5 over %r, 2 trackers in 2 tiers (tier 0 scrapable)" % (EX_ALPHA, core)
     hist = {}
     for c in cases:
         n = len(c.split(" ; ", 1)[1].split()) if " ; " in c else 0
